@@ -782,6 +782,14 @@ func resStress(r *vk.Run) {
 		rng := r.CaseRand("c10-pullid", i)
 		base := baseline()
 		w := newWorld()
+		// a third of the collections fold the case of ids: the writer then names the item in another spelling than the
+		// subscriber did, it is the same item all the same
+		delID := "a"
+		if rng.Chance(1, 3) {
+			w.col = resource.NewCollection(resource.WithClock(clk{}), resource.WithIDInterceptor(strings.ToLower), resource.WithInitialRecord("a", &tat{DefaultString: "a-init"}), resource.WithInitialRecord("b", &tat{DefaultString: "b-init"}))
+			delID = "A"
+			r.Count("pullid-removal-scenarios-with-case-folding-ids", 1)
+		}
 		sched.Stress(rng.Uint64() | 1)
 		ctx, cancel := context.WithCancel(context.Background())
 		o := subOpts{Kind: "pullid", BP: rng.Bool(), UpdatesOnly: rng.Bool(), StopAfter: -1}
@@ -789,9 +797,9 @@ func resStress(r *vk.Run) {
 		var ws []*vk.Task
 		ws = append(ws, vk.Go(func() {
 			for k := rng.Intn(4); k > 0; k-- {
-				w.col.Update("a", &tat{DefaultString: fmt.Sprint("u", k)})
+				w.col.Update(delID, &tat{DefaultString: fmt.Sprint("u", k)})
 			}
-			w.col.Delete("a")
+			w.col.Delete(delID)
 			w.col.Update("b", &tat{DefaultString: "after"}, resource.WithCreateIfAbsent())
 		}))
 		ws[0].Wait()
